@@ -9,6 +9,7 @@ import CharsetProof.Model.DecodeHelper
 import CharsetProof.Model.Cli
 import CharsetProof.Model.Cd
 import CharsetProof.Model.Md
+import CharsetProof.Model.Ranges
 import Std.Data.HashMap
 namespace Charset.Driver
 open Charset
@@ -235,6 +236,11 @@ def handle (line : String) : String :=
       let m := bits.toList.toArray
       let lt : Nat → Nat → Bool := fun i j => m[i * n + j]? == some '1'
       "ok " ++ " ".intercalate ((sortUnstable lt (List.range n)).map toString)
+    | none => "bad-op"
+  | ["uranges", th] =>
+    -- CharsetMatch::unicode_ranges() of a text ("none" = no decoded payload)
+    match (if th = "none" then some none else (textOfHex th).map some) with
+    | some t => "ok " ++ ",".intercalate ((unicodeRangesOf Gen.unicodeRanges t).map (fun n => "x" ++ xhex n))
     | none => "bad-op"
   | "merge" :: lists =>
     -- merge_coherence_ratios on per-chunk lists `Lang=scorebits,...` ("-" = empty list / no lists)
